@@ -318,3 +318,12 @@ class IsLinkable(Contract):
         want = case["variant"] in ("plain", "single_dataset")
         yield "linkable_iff_no_global_model_one_model_dimension_one_global_dimension", out["linkable"] is want
         yield "auto_link_follows_is_linkable", out["linked"] is want
+
+
+def _big_sweep(self, tier, seed):
+    from contracts.big_configs import pipeline_sweep
+
+    return pipeline_sweep(self, tier, seed)
+
+
+Objective.bounded_checks = _big_sweep
